@@ -12,6 +12,8 @@ pub mod simd;
 pub mod sql_join;
 pub mod sql_join_op;
 pub mod sql_subq;
+pub mod cal;
+pub mod json;
 
 pub fn run(engine: &str, ctx: &Ctx) -> Report {
     match engine {
@@ -24,6 +26,8 @@ pub fn run(engine: &str, ctx: &Ctx) -> Report {
         "simd" => simd::run(ctx),
         "sql_join" => sql_join::run(ctx),
         "sql_subq" => sql_subq::run(ctx),
+        "cal" => cal::run(ctx),
+        "json" => json::run(ctx),
         _ => {
             eprintln!("unknown engine {engine}");
             std::process::exit(2);
